@@ -130,6 +130,13 @@ func projectValue(v reflect.Value) node {
 			under = reflect.ValueOf(v.String())
 		case reflect.Slice:
 			under = v.Convert(reflect.SliceOf(t.Elem()))
+		case reflect.Array:
+			// an (unnamed) byte array type: its bytes
+			b := make([]byte, v.Len())
+			for i := range b {
+				b[i] = byte(v.Index(i).Uint())
+			}
+			under = reflect.ValueOf(b)
 		case reflect.Struct:
 			// the fields, projected as an anonymous struct
 			fs := make([]any, t.NumField())
@@ -332,6 +339,9 @@ func projectTypeRec(t reflect.Type, open map[reflect.Type]bool) node {
 		return tnode("slice", 24, t.Name(), projectTypeRec(t.Elem(), open))
 	case reflect.Array:
 		if t.Elem().Kind() == reflect.Uint8 {
+			if cn, ok := customNames[t]; ok && t.Name() == "" {
+				return tnode("bytearr", t.Len(), cn) // an unnamed type the harness registers under this name
+			}
 			return tnode("bytearr", t.Len(), t.Name())
 		}
 		return tnode("array", t.Len(), t.Name(), projectTypeRec(t.Elem(), open))
